@@ -583,16 +583,11 @@ func c19CheckCase(c *Cfg, cs *c19Case, b []string, cr *c19ConcRes) {
 	cls := c19Class("conc", kinds, cs.Mode)
 	if c19LayoutOnly(diffs, cs) {
 		cls = "conc-format-comment-layout"
-	} else if len(diffs) > 0 && len(diffs2For(cs, b, cr)) == 0 && c19BelowError(diffs, cs, cr) {
-		// transient (the value answers like a fresh one again afterwards) and every
-		// differing call looked at a path at or below a field whose value is an error:
-		// the root cause "arcs below an erroneous field are finalised lazily, readers see
-		// them half evaluated" (known finding)
-		cat := "evaluated"
-		if cs.Mode >= c19ModeUnified {
-			cat = "derived"
-		}
-		cls = "conc-transient-below-error-" + cat
+	} else if c19BelowError(diffs, cs, cr) {
+		// every differing call looked at a path at or below a field whose value is an
+		// error: the root cause "arcs below an erroneous field are finalised lazily on the
+		// shared vertex, concurrent readers see / leave them half evaluated" (known finding)
+		cls = "conc-below-error-" + c19Cat(cs)
 	}
 	c.Direct(len(diffs) == 0, cls, "a call executed concurrently with others on a shared value returned something else than when executed alone",
 		replay(map[string]any{"diffs": c19First(diffs, 4), "ndiffs": len(diffs), "calls": cs.Calls}))
@@ -609,6 +604,8 @@ func c19CheckCase(c *Cfg, cs *c19Case, b []string, cr *c19ConcRes) {
 	cls2 := c19Class("after", kinds2, cs.Mode)
 	if c19LayoutOnly(diffs2, cs) {
 		cls2 = "after-format-comment-layout"
+	} else if c19BelowError(diffs2, cs, cr) {
+		cls2 = "after-below-error-" + c19Cat(cs)
 	}
 	c.Direct(len(diffs2) == 0, cls2, "after the concurrent calls a shared value answers differently than a fresh one (it was changed)",
 		replay(map[string]any{"diffs": c19First(diffs2, 4), "ndiffs": len(diffs2), "calls": cs.Calls}))
@@ -634,15 +631,11 @@ func c19IsErr(sh *c19Shared, p string) (bad bool) {
 	return sh.v.LookupPath(c19Path(p)).Err() != nil
 }
 
-// diffs2For: indices of calls whose AFTER result differs from the baseline
-func diffs2For(cs *c19Case, b []string, cr *c19ConcRes) []int {
-	var ds []int
-	for k := range cs.Calls {
-		if cr.After[k] != b[k] {
-			ds = append(ds, k)
-		}
+func c19Cat(cs *c19Case) string {
+	if cs.Mode >= c19ModeUnified {
+		return "derived"
 	}
-	return ds
+	return "evaluated"
 }
 
 // c19BelowError: every differing call has its path at or below an erroneous path
